@@ -507,6 +507,15 @@ where
         let last_symbol = cdf.last().expect("cdf is not empty").1.clone();
         cdf.push((wrapping_pow2(PRECISION), last_symbol));
 
+        // `quantile_function` indexes into `lookup_table` with arbitrary `PRECISION`-bit quantiles
+        // without bounds checks, and `symbol_table` may come from an arbitrary implementation of
+        // the (safe) trait `IterableEntropyModel`, so we can't just trust that it is complete.
+        assert_eq!(
+            lookup_table.len(),
+            1usize << PRECISION,
+            "The probabilities of an entropy model must add up to `1 << PRECISION`."
+        );
+
         Self {
             lookup_table: lookup_table.into_boxed_slice(),
             cdf,
